@@ -9,6 +9,7 @@ import (
 	"encoding/base64"
 	"encoding/json"
 	"fmt"
+	"github.com/siglens/siglens/pkg/memorypool"
 	"io"
 	"os"
 	"runtime"
@@ -368,8 +369,16 @@ func RunQuery(a *QueryArgs) *QueryRes {
 	if a.Nulls {
 		m["includeNulls"] = true
 	}
+	if os.Getenv("VERIF_POOL_QUARANTINE") != "" {
+		memorypool.VerifQuarantineOn.Store(true) // experiment: pool discipline of the query path on undamaged data
+	}
 	resp, scrollMax, _, err := pipesearch.ParseAndExecutePipeRequest(m, nextQid(), a.Org, time.Now(), "-1", nil)
 	out := &QueryRes{ScrollMax: scrollMax}
+	if os.Getenv("VERIF_POOL_QUARANTINE") != "" {
+		if v, _ := memorypool.VerifCheckQuarantine(); len(v) > 0 && err == nil {
+			err = fmt.Errorf("POOL: %v", v)
+		}
+	}
 	if err != nil {
 		out.Err = err.Error()
 		return out
